@@ -242,7 +242,8 @@ class Ctx:
         cfg = cfg or (module + ".cfg")
         workers = workers or min(NCPU, 8)
         meta = tempfile.mkdtemp(prefix="tlc_", dir=self.tmp)
-        jopts = ["-XX:+UseParallelGC", "-Xss1g", "-Xmx" + xmx]
+        # java.io.tmpdir inside the run's own scratch directory: TLC leaves an empty tlc-<n> directory per run otherwise
+        jopts = ["-XX:+UseParallelGC", "-Xss1g", "-Xmx" + xmx, "-Djava.io.tmpdir=" + meta]
         if deque:
             jopts.append("-Dtlc2.tool.queue.IStateQueue=StateDeque")
         cmd = ["java"] + jopts + ["-cp", TLA_CP, "tlc2.TLC", "-workers", str(workers), "-metadir", meta,
